@@ -3,7 +3,7 @@ from typing import cast
 
 from xdsl.context import Context
 from xdsl.dialects import arith, builtin
-from xdsl.dialects.memref import AllocOp
+from xdsl.dialects.memref import AllocOp, DeallocOp
 from xdsl.ir import OpResult
 from xdsl.passes import ModulePass
 from xdsl.pattern_rewriter import (
@@ -102,6 +102,15 @@ class PipelineDuplicateBuffers(RewritePattern):
 
         if not isinstance(buffer, OpResult) or not isinstance(buffer.op, AllocOp):
             raise NotImplementedError("buffer should be the result of a memref.alloc operation")
+
+        # after the loop the value of the last iteration lives in one of the two copies,
+        # depending on the trip count, so nothing else may read the buffer
+        for use in buffer.uses:
+            if use in (in_use, out_use) or isinstance(use.operation, DeallocOp):
+                continue
+            if isinstance(use.operation, StageOp) and buffer not in use.operation.ins:
+                continue
+            raise NotImplementedError("use of a double buffered buffer outside of the pipeline is not yet supported")
 
         # this is the spot to implement double buffering. There is one in_use, and one out use.
         # we must duplicate the buffer and select the correct one in the index op. to avoid
